@@ -157,6 +157,7 @@ var names = []qvar{
 	{"example.com.", 15}, {"EXAMPLE.COM.", 15}, {"example.com.", 6}, {"geo.example.com.", 1}, {"Geo.Example.Com.", 1},
 	{"txt.example.com.", 16}, {"nx.example.com.", 1}, {"NX.example.com.", 1}, {"x.sub.example.com.", 1},
 	{"X.SUB.example.com.", 1}, {"other.org.", 1}, {"wrr.example.com.", 1}, {"www.example.com.", 28},
+	{"d1.example.com.", 2}, {"m1.example.com.", 15}, {"d3.example.com.", 2}, {"m2.example.com.", 15},
 }
 
 func randomQuery(r *hlib.Rng, few bool) rl.ThreadSpec {
@@ -286,6 +287,20 @@ func badversHist() rl.Case {
 	return rl.Case{Kind: "hist", Class: "badvers-warm", Cfg: rl.Config{Backend: "cdb", Cache: true, LRU: 16}, Disk: stdDisk(0), P0: 0, Threads: th}
 }
 
+// NS / MX sets in which only one target (first, last, middle) needs a weighted draw for its
+// address: asked three times each; no such response may come out of the cache (WRSTimeout 0)
+func weightedTargetHist() rl.Case {
+	var th []rl.ThreadSpec
+	for _, v := range []qvar{{"d1.example.com.", 2}, {"d2.example.com.", 2}, {"d3.example.com.", 2},
+		{"m1.example.com.", 15}, {"m2.example.com.", 15}, {"m3.example.com.", 15}} {
+		for i := 0; i < 3; i++ {
+			th = append(th, q(1+i, v.name, v.qtype, ipLoc1))
+		}
+	}
+	th = append(th, q(1, "www.example.com.", 1, ipLoc1), q(1, "www.example.com.", 1, ipLoc1))
+	return rl.Case{Kind: "hist", Class: "weighted-target", Cfg: rl.Config{Backend: "cdb", Cache: true, LRU: 32}, Disk: stdDisk(0), P0: 0, Threads: th}
+}
+
 func expiryHist() rl.Case {
 	// weighted answers cached for one second: hit, then expired after the wait
 	w := q(1, "wrr.example.com.", 1, ipLoc1)
@@ -303,7 +318,7 @@ func generate(a *hlib.Args) []rl.Case {
 		cases = append(cases, shapeF6(be), shapeInsertBeforePurge(be), shapeHitThenReload(be))
 	}
 	cases = append(cases, collisionHists()...)
-	cases = append(cases, expiryHist(), badversHist())
+	cases = append(cases, expiryHist(), badversHist(), weightedTargetHist())
 	cases = append(cases, locationHists()...)
 	n := a.N
 	for i := 0; i < n; i++ {
